@@ -291,11 +291,14 @@ def run_assign(case):
         else:
             rhs = _make_rhs(dict(case["rhs"], shape="scalar"), ())
         kw = {"cast": True} if cast else {}
+        dd_arg = dict(dd)       # ONE mapping object handed to every dict spelling: an index argument is not consumed by the call
         if mode == "label":
             S = [("a[t]=v", lambda a: a.__setitem__(idx, rhs) if not cast else a.put(idx, rhs, cast=True), False),
                  ("put(t, v)", lambda a: a.put(idx, rhs, **kw), False),
                  ("put(t, v, inplace=False)", lambda a: a.put(idx, rhs, inplace=False, **kw), True),
-                 ("put({dim: i}, v)", lambda a: a.put(dict(dd), rhs, **kw), False),
+                 ("put({dim: i}, v)", lambda a: a.put(dd_arg, rhs, **kw), False),
+                 ("a[{dim: i}]=v", lambda a: a.__setitem__(dd_arg, rhs) if not cast else a.put(dd_arg, rhs, cast=True), False),
+                 ("put({dim: i}, v, inplace=False)", lambda a: a.put(dd_arg, rhs, inplace=False, **kw), True),
                  ("loc[t]=v", lambda a: a.loc.__setitem__(idx, rhs) if not cast else a.put(idx, rhs, indexing="label", cast=True), False)]
             if len(nonfull) == 1:
                 i = nonfull[0]
@@ -313,6 +316,7 @@ def run_assign(case):
                 i = nonfull[0]
                 S.append(("put(i, v, axis=negative pos, indexing=position)", lambda a: a.put(idx[i], rhs, axis=i - len(dims), indexing="position", **kw), False))
                 S.append(("ix[{negative pos: i}]=v", lambda a: a.put({i - len(dims): idx[i]}, rhs, indexing="position", **kw), False))
+            S.append(("ix[{dim: i}]=v", lambda a: a.put(dd_arg, rhs, indexing="position", **kw), False))
             cl.add("position")
         for name, f, copy_ in S:
             a = core.build(spec, attrs=ATTRS)
@@ -326,6 +330,7 @@ def run_assign(case):
                 cl.add("absent->IndexError")
                 continue
             ret = lib(lambda: f(a), what=what, sig=sig)
+            check(list(dd_arg.keys()) == list(dd.keys()) and all(dd_arg[k_] is dd[k_] for k_ in dd), "index-mapping-modified", {"what": what, "now": core.jsonable(list(dd_arg.keys())), "was": core.jsonable(list(dd.keys()))}, sig)
             if copy_:
                 cl.add("spelling:put-copy")
                 _check_rest(a, snap, what + " [original]", sig, values_too=True)
